@@ -8,6 +8,10 @@ namespace simucell3d_verif {
 unsigned long g_base_seed = 12345;
 static std::mutex g_mu;
 static std::map<std::pair<std::string, unsigned long>, unsigned long>* g_count = nullptr;
+// the cell the calling thread is working on (entered by the guarded cell_scope in divide_cell); 0 = none
+static thread_local unsigned long tl_scope = 0;
+__attribute__((weak)) unsigned long scope_enter(unsigned long cell_id) { unsigned long prev = tl_scope; tl_scope = cell_id + 1; return prev; }
+__attribute__((weak)) void scope_leave(unsigned long prev) { tl_scope = prev; }
 void reset_rng_counters() { std::lock_guard<std::mutex> l(g_mu); if (g_count) g_count->clear(); }
 static unsigned long mix(unsigned long x) { x ^= x >> 33; x *= 0xff51afd7ed558ccdul; x ^= x >> 33; x *= 0xc4ceb9fe1a85ec53ul; x ^= x >> 33; return x; }
 // seed = f(base seed, call site, data-derived key, how many times this (site,key) asked before): independent of
@@ -15,6 +19,7 @@ static unsigned long mix(unsigned long x) { x ^= x >> 33; x *= 0xff51afd7ed558cc
 __attribute__((weak)) unsigned long rng_seed(const char* site, unsigned long key) {
     std::lock_guard<std::mutex> l(g_mu);
     if (!g_count) g_count = new std::map<std::pair<std::string, unsigned long>, unsigned long>();
+    key = key * 0x9e3779b97f4a7c15ul + tl_scope;           // inside a cell scope the seed is a function of that cell, not of the schedule
     unsigned long n = (*g_count)[{site, key}]++;
     unsigned long h = g_base_seed;
     for (const char* s = site; *s; ++s) h = h * 131 + (unsigned char)*s;
